@@ -102,7 +102,7 @@ class GolombProblem(Problem):
                             [1, -1, -sum_first(mark_nb - 1 - (j - i))],
                         )
                     )
-        if symmetry_breaking:
+        if symmetry_breaking and mark_nb > 2:  # with 2 marks the first and the last distance are the same variable
             self.add_propagator(
                 (
                     [index(mark_nb, 0, 1), index(mark_nb, mark_nb - 2, mark_nb - 1)],
